@@ -1,7 +1,6 @@
 package harness
 
 import (
-	"errors"
 	"fmt"
 	"regexp"
 	"sort"
@@ -57,9 +56,9 @@ func faultRun(t *rapid.T) {
 	if plush.CacheEnabled {
 		count("fault_cases_with_cache_on", 1)
 	}
-	renderEntry = []int{0, 0, 0, 1, 2, 3, 4}[uni(t, "entry", 7)]
+	renderEntry = []int{0, 0, 0, 1, 2, 3, 4, 5, 6}[uni(t, "entry", 9)]
 	defer func() { renderEntry = 0 }()
-	count("fault_cases_entry_"+[]string{"Render-or-NewTemplate+Exec", "BuffaloRenderer", "RenderR", "Parse+Exec", "Exec-with-a-cancelled-Go-context"}[renderEntry], 1)
+	count("fault_cases_entry_"+[]string{"Render-or-NewTemplate+Exec", "BuffaloRenderer", "RenderR", "Parse+Exec", "Exec-with-a-cancelled-Go-context", "Template-struct-literal", "Clone-of-NewTemplate-value"}[renderEntry], 1)
 	mode := uni(t, "mode", 10)
 	switch {
 	case mode <= 5:
@@ -243,7 +242,7 @@ func faultProbeRun(t *rapid.T) {
 				// ---- C05
 				if err == nil {
 					violate(t, "C05", "failing-probe-fails-render", "c05:swallowed:"+fkName+":"+site.Class, det(ex))
-				} else if !errors.Is(err, rt.Fault) {
+				} else if !wrapsAll(err, rt) {
 					violate(t, "C05", "error-wraps-original", "c05:not-wrapped:"+fkName+":"+site.Class, det(ex))
 				}
 				if out != "" {
@@ -589,7 +588,7 @@ func pageLayoutRun(t *rapid.T) {
 		violate(t, "C05", "failing-probe-fails-render", "c05:swallowed:"+cls, det(out, err))
 		return
 	}
-	if !natural && !errors.Is(err, rt.Fault) {
+	if !natural && !wrapsAll(err, rt) {
 		violate(t, "C05", "error-wraps-original", "c05:not-wrapped:"+cls, det(out, err))
 	}
 	if out != "" {
@@ -689,7 +688,7 @@ func repeatFailing(t *rapid.T, p *Program, mk func() *Runtime, class string, det
 			violate(t, "C05", "failing-operation-fails-every-execution", "c05:repeat-swallowed:"+class, d)
 			return
 		}
-		if rt.FailAt > 0 && rt.Kind != fkWrongKind && !errors.Is(err, rt.Fault) {
+		if rt.FailAt > 0 && rt.Kind != fkWrongKind && !wrapsAll(err, rt) {
 			violate(t, "C05", "error-wraps-original", "c05:repeat-not-wrapped:"+class, d)
 			return
 		}
